@@ -1806,3 +1806,394 @@ class _Brk(Exception):
 
 class _Cont(Exception):
     pass
+
+
+# ---------------------------------------------------------------------------
+# Concretisation of the symbolic generator results for ONE concrete type shape (used by the grid rule:
+# the symbolic result is unfolded for small shapes, the emitted source is parsed and its statements --
+# including loops the generated code itself contains -- are enumerated).
+class Shape:
+    """bits leaf (width), struct (name, fields) or list (n x elem)"""
+    def __init__(self, kind, width=0, name=None, fields=None, n=0, elem=None):
+        self.kind, self.width, self.name, self.fields, self.n, self.elem = kind, width, name, fields or [], n, elem
+
+    @property
+    def nbits(self):
+        if self.kind == 'bits':
+            return self.width
+        if self.kind == 'struct':
+            return sum(f.nbits for _, f in self.fields)
+        return self.n * self.elem.nbits
+
+    def __repr__(self):
+        if self.kind == 'bits':
+            return f"Bits{self.width}"
+        if self.kind == 'struct':
+            return self.name
+        return f"[{self.elem!r}]*{self.n}"
+
+
+class Opaq:
+    """an object of the generator's environment that the analysis does not model (name table, imported function)"""
+    def __init__(self, name):
+        self.name = name
+        self.count = 0
+
+
+class Concretiser:
+    def __init__(self, helpers, budget=400000, folds=()):
+        self.helpers = helpers          # name -> object with .fdef, .params, .tpname, .raw {kind: value}
+        self.budget = budget
+        self.steps = 0
+        self.opaque = {}
+        self.fold_stack = [list(folds)]  # Fold values whose Carried variables loop segments may mention
+
+    def with_folds(self, value, env):
+        """concretise `value`; loop segments see the running value of every variable carried by the same loop"""
+        fl = [x for x in walk_values(value) if isinstance(x, Fold)]
+        self.fold_stack.append(fl + self.fold_stack[0])
+        try:
+            return self.c(value, env)
+        finally:
+            self.fold_stack.pop()
+
+    def tick(self):
+        self.steps += 1
+        if self.steps > self.budget:
+            raise AnalysisError("concretisation of the generator result exceeds its budget")
+
+    def truth(self, t, env):
+        if isinstance(t, KindTest):
+            x = self.c(t.v, env)
+            if t.kind == 'list':
+                return isinstance(x, Shape) and x.kind == 'list' or isinstance(x, list)
+            return isinstance(x, Shape) and x.kind == t.kind
+        if isinstance(t, Const):
+            return bool(t.value)
+        if isinstance(t, Not):
+            return not self.truth(t.v, env)
+        if isinstance(t, BoolV):
+            vals = [self.truth(x, env) for x in t.vals]
+            return all(vals) if t.op == 'and' else any(vals)
+        if isinstance(t, Cmp):
+            a, b = self.c(t.l, env), self.c(t.r, env)
+            if t.op in ('In', 'NotIn') and isinstance(b, Opaq):
+                return t.op == 'NotIn'
+            import operator as _o
+            f = {'Eq': _o.eq, 'NotEq': _o.ne, 'Lt': _o.lt, 'LtE': _o.le, 'Gt': _o.gt, 'GtE': _o.ge,
+                 'Is': _o.is_, 'IsNot': _o.is_not, 'In': lambda x, y: x in y, 'NotIn': lambda x, y: x not in y}.get(t.op)
+            if f is None:
+                raise AnalysisError(f"condition outside the concretiser: {show(t)}")
+            try:
+                return bool(f(a, b))
+            except TypeError:
+                raise AnalysisError(f"condition outside the concretiser: {show(t)}")
+        v = self.c(t, env)
+        if isinstance(v, (bool, int, str, list, tuple, dict)) or v is None:
+            return bool(v)
+        return True
+
+    def iterate(self, loop, env, flags=()):
+        """list of environments, one per iteration of the loop"""
+        if flags:
+            raise AnalysisError(f"loop with {'/'.join(flags)} cannot be concretised")
+        sp = loop.space
+        rev = False
+        while isinstance(sp, Wrapped):
+            if sp.fn == 'reversed':
+                rev = not rev
+            elif sp.fn not in ('list', 'tuple'):
+                raise AnalysisError(f"iteration {show(loop.space)} cannot be concretised")
+            sp = sp.space
+        out = []
+        if isinstance(sp, RangeSp):
+            n = self.c(sp.n, env)
+            if not sp.complete or sp.dir not in ('asc', 'desc') or not isinstance(n, int):
+                raise AnalysisError(f"iteration {sp.desc} cannot be concretised")
+            idx = range(n) if sp.dir == 'asc' else range(n - 1, -1, -1)
+            out = [{LoopVar(loop, 'idx'): i} for i in idx]
+        elif isinstance(sp, (ItemsSp, KeysSp, ValuesSp)):
+            d = self.c(sp.d, env)
+            if isinstance(d, Shape) and d.kind == 'list':
+                d = [d.elem] * d.n
+            if isinstance(d, dict):
+                out = [{LoopVar(loop, 'key'): k, LoopVar(loop, 'val'): v} for k, v in d.items()]
+            elif isinstance(d, (list, tuple)) and isinstance(sp, KeysSp):
+                out = [{LoopVar(loop, 'key'): x} for x in d]
+            elif isinstance(d, Opaq):
+                out = []
+            else:
+                raise AnalysisError(f"iteration over {show(sp)} cannot be concretised")
+        elif isinstance(sp, EnumSp):
+            d = self.c(sp.v, env)
+            if isinstance(d, Shape) and d.kind == 'list':
+                d = [d.elem] * d.n
+            out = [{LoopVar(loop, 'idx'): i, LoopVar(loop, 'elem'): x} for i, x in enumerate(d)]
+        elif isinstance(sp, SeqSp):
+            out = [{LoopVar(loop, 'elem'): x} for x in self.c(sp.v, env)]
+        else:
+            raise AnalysisError(f"iteration {show(sp)} cannot be concretised")
+        return list(reversed(out)) if rev else out
+
+    def segs(self, segs, env):
+        out = []
+        for s in segs:
+            if isinstance(s, Item):
+                out.append(self.c(s.v, env))
+            elif isinstance(s, Splice):
+                v = self.c(s.v, env)
+                if not isinstance(v, (list, tuple)):
+                    raise AnalysisError(f"splice of a non-sequence: {show(s.v)}")
+                out.extend(v)
+            elif isinstance(s, LoopSeg):
+                fl = []
+                for f in self.fold_stack[-1]:
+                    if f.loop == s.loop and f not in fl:
+                        fl.append(f)
+                accs = [self.c(f.init, env) for f in fl]
+                for b in self.iterate(s.loop, env, s.flags):
+                    e2 = dict(env)
+                    e2.update(b)
+                    for f, acc in zip(fl, accs):
+                        e2[Carried(f.loop, f.name)] = acc
+                    out.extend(self.segs(s.segs, e2))
+                    accs = [self.c(f.step, e2) for f in fl]
+            elif isinstance(s, CondSeg):
+                if self.truth(s.test, env) == s.pol:
+                    out.extend(self.segs(s.segs, env))
+            else:
+                raise AnalysisError(f"segment {s!r}")
+        return out
+
+    def c(self, v, env):
+        self.tick()
+        if isinstance(v, V) and v in env:
+            return env[v]
+        if isinstance(v, Const):
+            return v.value
+        if isinstance(v, Lin):
+            tot = v.const
+            for a, k in v.terms:
+                x = self.c(a, env)
+                if isinstance(x, bool) or not isinstance(x, int):
+                    raise AnalysisError(f"non-integer term {show(a)} in {show(v)}")
+                tot += k * x
+            return tot
+        if isinstance(v, Tmpl):
+            out = []
+            for p in v.parts:
+                if isinstance(p, str):
+                    out.append(p)
+                else:
+                    x = self.c(p, env)
+                    out.append(x.name if isinstance(x, (Opaq, Shape)) and getattr(x, 'name', None) else str(x))
+            return ''.join(out)
+        if isinstance(v, Fmt):
+            return str(self.c(v.v, env))
+        if isinstance(v, Join):
+            return str(self.c(v.sep, env)).join(str(x) for x in self.c(v.seq, env))
+        if isinstance(v, SeqV):
+            return self.segs(v.segs, env)
+        if isinstance(v, DictV):
+            return dict((tuple(kv) if isinstance(kv, list) else kv) for kv in self.segs(v.segs, env))
+        if isinstance(v, Rev):
+            return list(reversed(self.c(v.v, env)))
+        if isinstance(v, Tup):
+            return tuple(self.c(x, env) for x in v.items)
+        if isinstance(v, Proj):
+            return self.c(v.v, env)[v.k]
+        if isinstance(v, Phi):
+            return self.c(v.a if self.truth(v.test, env) else v.b, env)
+        if isinstance(v, KindTest) or isinstance(v, (Cmp, BoolV, Not)):
+            return self.truth(v, env)
+        if isinstance(v, Len):
+            x = self.c(v.v, env)
+            if isinstance(x, Shape) and x.kind == 'list':
+                return x.n
+            if isinstance(x, Opaq):
+                x.count += 1
+                return x.count
+            return len(x)
+        if isinstance(v, Attr):
+            x = self.c(v.v, env)
+            if isinstance(x, Shape):
+                if v.name == 'nbits':
+                    return x.nbits
+                if v.name == '__name__':
+                    return repr(x)
+            raise AnalysisError(f"attribute {show(v)} cannot be concretised")
+        if isinstance(v, FieldsOf):
+            x = self.c(v.v, env)
+            if isinstance(x, Shape) and x.kind == 'struct':
+                return dict(x.fields)
+            raise AnalysisError(f"{show(v)}: not a struct shape")
+        if isinstance(v, Sub):
+            x = self.c(v.v, env)
+            i = self.c(v.idx, env)
+            if isinstance(x, Shape) and x.kind == 'list':
+                return x.elem
+            if isinstance(x, Opaq):
+                return Opaq(f"{x.name}_{getattr(i, 'name', None) or i!r}".replace('*', 'x').replace('[', '_').replace(']', '_'))
+            try:
+                return x[i]
+            except Exception:
+                raise AnalysisError(f"subscript {show(v)} cannot be concretised")
+        if isinstance(v, Bin):
+            import operator as _o
+            f = {'FloorDiv': _o.floordiv, 'Mod': _o.mod, 'Mult': _o.mul, 'Add': _o.add, 'Sub': _o.sub, 'LShift': _o.lshift,
+                 'RShift': _o.rshift, 'BitAnd': _o.and_, 'BitOr': _o.or_, 'BitXor': _o.xor}.get(v.op)
+            a, b = self.c(v.l, env), self.c(v.r, env)
+            if f is None or not all(isinstance(x, (int, str)) and not isinstance(x, bool) for x in (a, b)):
+                raise AnalysisError(f"operation outside the concretiser: {show(v)}")
+            try:
+                return f(a, b)
+            except Exception:
+                raise AnalysisError(f"operation outside the concretiser: {show(v)}")
+        if isinstance(v, Innermost):
+            x = self.c(v.v, env)
+            while isinstance(x, Shape) and x.kind == 'list':
+                x = x.elem
+            return x
+        if isinstance(v, Fold):
+            acc = self.c(v.init, env)
+            for b in self.iterate(v.loop, env):
+                e2 = dict(env)
+                e2.update(b)
+                e2[Carried(v.loop, v.name)] = acc
+                acc = self.c(v.step, e2)
+            return acc
+        if isinstance(v, Rec):
+            return self.unfold(v, env)
+        if isinstance(v, Fn):
+            return dict(name=self.c(v.name, env), args=self.c(v.args, env), body=self.c(v.body, env))
+        if isinstance(v, Sym):
+            return self.opaque.setdefault(v.name, Opaq(v.name))
+        if isinstance(v, LastIter):
+            raise AnalysisError(f"value of a loop variable used after its loop: {show(v)}")
+        if isinstance(v, (int, str)):
+            return v
+        raise AnalysisError(f"value outside the concretiser: {show(v)[:80]}")
+
+    def unfold(self, rec, env):
+        h = self.helpers.get(rec.fn)
+        if h is None:
+            raise AnalysisError(f"recursive helper {rec.fn} was not analysed")
+        e2 = {}
+        for n, val in rec.closure:
+            e2[Sym(n)] = self.c(val, env)
+        a = h.fdef.args
+        defaults = dict(zip([x.arg for x in a.args][len(a.args) - len(a.defaults):], a.defaults))
+        for pname, arg in zip(h.params, rec.args):
+            if isinstance(arg, Sym) and arg.name.startswith('<default '):
+                try:
+                    e2[Sym(pname)] = ast.literal_eval(defaults[pname])
+                except Exception:
+                    raise AnalysisError(f"default of {pname} in {rec.fn} is not a literal")
+            else:
+                e2[Sym(pname)] = self.c(arg, env)
+        t = e2[Sym(h.tpname)]
+        if not isinstance(t, Shape):
+            raise AnalysisError(f"{rec.fn} is applied to {t!r}, not to a type")
+        try:
+            key = (rec.fn, tuple(sorted((k.name, id(v) if isinstance(v, (Shape, Opaq)) else v) for k, v in e2.items())))
+            hash(key)
+        except TypeError:
+            key = None
+        memo = self.__dict__.setdefault('memo', {})
+        if key is not None and key in memo:
+            return memo[key]
+        out = self.with_folds(h.raw[t.kind], e2)
+        if key is not None:
+            memo[key] = out
+        return out
+
+
+# ---- enumeration of what EMITTED code does (loops in the emitted code are iterated concretely)
+def emitted_path(node, env):
+    """access path text with concrete indices, or None"""
+    if isinstance(node, ast.Name):
+        return node.id
+    if isinstance(node, ast.Attribute):
+        b = emitted_path(node.value, env)
+        return None if b is None else f"{b}.{node.attr}"
+    if isinstance(node, ast.Subscript) and not isinstance(node.slice, ast.Slice):
+        b = emitted_path(node.value, env)
+        i = emitted_int(node.slice, env)
+        return None if b is None or i is None else f"{b}[{i}]"
+    return None
+
+
+def emitted_int(e, env):
+    if isinstance(e, ast.Constant) and isinstance(e.value, int) and not isinstance(e.value, bool):
+        return e.value
+    if isinstance(e, ast.Name):
+        return env.get(e.id)
+    if isinstance(e, ast.UnaryOp) and isinstance(e.op, ast.USub):
+        v = emitted_int(e.operand, env)
+        return None if v is None else -v
+    if isinstance(e, ast.BinOp) and isinstance(e.op, (ast.Add, ast.Sub, ast.Mult)):
+        l, r = emitted_int(e.left, env), emitted_int(e.right, env)
+        if l is None or r is None:
+            return None
+        return l + r if isinstance(e.op, ast.Add) else l - r if isinstance(e.op, ast.Sub) else l * r
+    return None
+
+
+def emitted_struct(e, env):
+    """normal form of an emitted expression"""
+    if isinstance(e, ast.List):
+        return ('list', tuple(emitted_struct(x, env) for x in e.elts))
+    if isinstance(e, ast.Call):
+        f = emitted_path(e.func, env) or norm(e.func)
+        if e.keywords:
+            return ('expr', norm(e))
+        return ('call', f, tuple(emitted_struct(x, env) for x in e.args))
+    if isinstance(e, ast.Subscript) and isinstance(e.slice, ast.Slice):
+        lo = None if e.slice.lower is None else emitted_int(e.slice.lower, env)
+        hi = None if e.slice.upper is None else emitted_int(e.slice.upper, env)
+        return ('slice', emitted_path(e.value, env) or norm(e.value), lo, hi, e.slice.step is not None)
+    p = emitted_path(e, env)
+    if p is not None:
+        return ('path', p)
+    return ('expr', norm(e))
+
+
+def emitted_actions(fdef, limit=4096):
+    """the actions the emitted function performs, loops of the emitted code unrolled:
+    ('aug', op, target path, source path) / ('call', callee path, args) / ('assign', target, value) /
+    ('return', normal form) / ('if', test text) for a top-level conditional (not entered)"""
+    out = []
+
+    def block(stmts, env, top):
+        for st in stmts:
+            if len(out) > limit:
+                raise AnalysisError("emitted code performs too many actions to enumerate")
+            if isinstance(st, ast.For):
+                it = st.iter
+                if not (isinstance(it, ast.Call) and norm(it.func) == 'range' and isinstance(st.target, ast.Name)
+                        and not st.orelse):
+                    raise AnalysisError(f"emitted loop outside the enumerated subset: {norm(st.iter)}")
+                args = [emitted_int(a, env) for a in it.args]
+                if any(a is None for a in args):
+                    raise AnalysisError(f"emitted loop bound is not a number: {norm(it)}")
+                for i in range(*args):
+                    e2 = dict(env)
+                    e2[st.target.id] = i
+                    block(st.body, e2, False)
+            elif isinstance(st, ast.AugAssign):
+                out.append(('aug', type(st.op).__name__, emitted_path(st.target, env) or norm(st.target),
+                            emitted_path(st.value, env) or norm(st.value)))
+            elif isinstance(st, ast.Assign):
+                out.append(('assign', tuple(emitted_path(t, env) or norm(t) for t in st.targets), emitted_struct(st.value, env)))
+            elif isinstance(st, ast.Expr) and isinstance(st.value, ast.Call):
+                out.append(('call',) + emitted_struct(st.value, env)[1:])
+            elif isinstance(st, ast.Return):
+                out.append(('return', None if st.value is None else emitted_struct(st.value, env)))
+            elif isinstance(st, ast.If) and top:
+                out.append(('if', norm(st.test)))
+            elif isinstance(st, (ast.Pass, ast.Assert)) or (isinstance(st, ast.Expr) and isinstance(st.value, ast.Constant)):
+                pass
+            else:
+                raise AnalysisError(f"emitted statement outside the enumerated subset: {norm(st)[:60]}")
+    block(fdef.body, {}, True)
+    return out
